@@ -282,6 +282,16 @@ where
         self.n_levels
     }
 
+    /// Checks if `symbol` occurs in the indexed sequence, i.e., if it has a code.
+    /// A symbol that does not fit in `usize` cannot index the table and has no code.
+    #[inline(always)]
+    fn is_coded(&self, symbol: T) -> bool {
+        match symbol.to_usize() {
+            Some(s) => s < self.codes_encode.len() && self.codes_encode[s].len != 0,
+            None => false,
+        }
+    }
+
     /// Returns an iterator over the values in the wavelet tree.
     ///
     /// # Examples
@@ -431,10 +441,7 @@ where
     #[inline(always)]
     #[must_use]
     pub fn rank_prefetch(&self, symbol: T, i: usize) -> Option<usize> {
-        if i > self.n
-            || symbol.as_() >= self.codes_encode.len()
-            || self.codes_encode[symbol.as_() as usize].len == 0
-        {
+        if i > self.n || !self.is_coded(symbol) {
             return None;
         }
 
@@ -693,10 +700,7 @@ where
     #[must_use]
     #[inline(always)]
     fn rank(&self, symbol: Self::Item, i: usize) -> Option<usize> {
-        if i > self.n
-            || symbol.as_() >= self.codes_encode.len()
-            || self.codes_encode[symbol.as_()].len == 0
-        {
+        if i > self.n || !self.is_coded(symbol) {
             return None;
         }
 
@@ -783,9 +787,7 @@ where
     #[must_use]
     #[inline(always)]
     fn select(&self, symbol: Self::Item, i: usize) -> Option<usize> {
-        if symbol.as_() >= self.codes_encode.len()
-            || self.codes_encode[symbol.as_() as usize].len == 0
-        {
+        if !self.is_coded(symbol) {
             return None;
         }
 
